@@ -74,6 +74,8 @@ CLAIMS.update({
     'C07': _e2e('Partial-reliability scenarios: a message that was not delivered must be one the sender told the peer to skip (stream entry or cumulative point of a FORWARD-TSN / I-FORWARD-TSN); everything else is delivered.'),
     'C08': _e2e('Graceful shutdown with data still queued, one-sided and crossed, under faults: Shutdown()==nil implies all earlier writes read in order before EOF; both sides closed; late writes/OpenStream rejected and never delivered.'),
     'C09': _e2e('Close / Abort / transport read failure / write failure injected right after the k-th wire event of runs that go through handshake, transfer, stream reset and shutdown, with callers parked in Connect, Accept, Read, Write, Shutdown: everything returns, no goroutine of the package survives, no write to a closed conn, Close idempotent, ABORT cause reaches the peer.'),
+    'C14': _e2e('Stream close by the writer then by the reader, re-open of the same identifier for up to 3 incarnations, several streams at once, under loss/duplication/reordering of DATA and RECONFIG: all messages then EOF per incarnation.'),
+    'C18': _e2e('API-contract programs: oversize / empty / closed-stream writes, blocking writes with deadlines, short read buffers (message stays available), read deadlines expiring with no data; rejected calls are invisible in the peer read history; blocking-write gate checked white-box.'),
 })
 
 CLAIMS.update({
@@ -435,6 +437,57 @@ CLAIMS.update({
                 'open, no marker queued, every request naming it performed); pion offers the application no signal for that — see the observation in DESIGN §5 C14 (crossed close + early re-open loses data).',
         'technique': 'Lean 4 proof (local send/receive invariants, cross-endpoint invariant over packet histories, incarnation bookkeeping; induction over arbitrary op lists) + '
                      'model/implementation differential replay of two direct-driven real Associations + executable predicate on implementation outputs + e2e exploration',
+    },
+})
+
+CONC_NOTE = (NOTE_COMMON + ' What is NOT and cannot be proved here: goroutine scheduling, sync.Mutex / sync.Cond / channel / sync.Once semantics (assumed as specified by Go), '
+             'wall-clock bounds, and - for C20 - DATA-RACE FREEDOM, which is a property of the Go memory model and cannot be expressed by an executable Lean model. '
+             'Real interleavings are SAMPLED (scenarios under testing/synctest on one P, reproducible from the seed; thorough tier: the same programs natively under the race detector, '
+             'whose clean verdict is supporting evidence only), never enumerated.')
+
+CLAIMS.update({
+    'C09': {
+        'text': 'MODEL LEVEL (proved): Lean theorems over the transition system Model/Teardown.lean - readLoop, writeLoop, timerLoop, a timer callback, the constructor call and a LIST of API '
+                'callers of ARBITRARY length (blocked reads per stream, blocking writes, AcceptStream, Shutdown, Close, Abort) over the transport, closeWriteLoopCh, readLoopCloseCh, acceptCh, '
+                'abortSentCh, awakeWriteLoopCh, the handshake rendez-vous, writeNotify, the per-stream condition variable and a.lock - for every reachable state, every interleaving, every finite '
+                'behaviour of the environment (packets, timer expiries, new calls, transport read/write failure, context cancellation). The choreography is NOT typed in: it is read off '
+                'translator facts regenerated on every run (ordered statements of the deferred block of readLoop, of close(), Close() and Abort(); the arms of the selects of completeHandshake, '
+                'writeLoop, timerLoop, Shutdown, both constructors and the blocking-write wait; Broadcast vs Signal in unregisterStream / onInboundStreamReset; closeNetConn on a write error) and '
+                'C09_choreography_matches_code decides that it is the one the proofs are about. Theorems: C09_no_stuck_state (teardown set off => everything finished or some process of the package '
+                'can move without the environment), C09_terminates (a measure strictly decreased by every step; every maximal run ends with all goroutines stopped and all calls returned), '
+                'C09_results / C09_results_constructor (what each blocked call returns), C09_no_write_after_close (at most one Write after Close, it fails and ends writeLoop), '
+                'C09_close_idempotent (netConn.Close at most once; Close on a closed association changes nothing), C09_abort_carries_cause (the stored cause is what goes on the wire; an inbound '
+                'ABORT makes its cause the close error, which never changes and is what every released reader of a non-reset stream gets). SYSTEM LEVEL (sampled): Close / several concurrent '
+                'Close+Abort / transport read failure / write failure / context cancellation (also exactly while the COOKIE-ACK is being processed) injected after the k-th wire event of runs '
+                'through handshake, transfer, stream reset and shutdown, with callers parked in Connect, Accept, Read (1-4 readers on the SAME stream), Write, Shutdown: every goroutine of the '
+                'package must be gone when the synctest bubble ends (a real-time watchdog catches deadlocks that involve a mutex), no write after close, repeated Close harmless, ABORT cause at the peer.',
+        'note': CONC_NOTE + ' Model assumptions: one constructor call per association, API calls only after it returned, completeHandshake attempted at most once (the code can attempt it twice when '
+                'the last T1 expiry races with the answer), stream identifiers not reused after a reset; "promptly" = without further help from the environment. A critical section that contains '
+                'no blocking operation is one atomic step (C20_interleaving_refines_sequence). KNOWN FINDINGS (witnesses replayed every run): K09-shutdown-nil - a waiting Shutdown returns nil when a '
+                'teardown, not the shutdown sequence, closed closeWriteLoopCh (C09_shutdown_nil_witness); K09-read-deadline-goroutine - the helper goroutine of SetReadDeadline outlives Close until '
+                'its deadline.',
+        'technique': 'Lean 4 proof (inductive invariant + progress argument + termination measure over a parametric transition system, arbitrary number of callers) on a choreography read off '
+                     'translator facts by decide + seeded teardown injection on real association pairs in virtual time with Lean-defined predicates',
+    },
+    'C20': {
+        'text': 'PARTIAL BY NATURE. Proved / decided in Lean on facts the translator derives from the source on every run (event tree of every function, abstract interpretation of the lock state '
+                'along every path incl. defers and the two drop-and-reacquire idioms, entry contexts propagated over the call graph with interface calls resolved by method set): '
+                'C20_lock_graph_acyclic (7 mutexes, no vertex reaches itself; Association.lock -> Stream.lock present, its inverse absent), C20_lock_discipline (no unbalanced path, no unlock of an '
+                'unheld mutex, with the one documented conditional lock in WriteSCTP), C20_callbacks_unlocked (every call of a function VALUE is made with an empty lock set; the one exception, the '
+                'scheduler factory plug-in, is listed), C20_steps_atomic (every chunk handler is entered with a.lock held and never touches it, handleChunk / gatherOutbound / every timer callback / '
+                'every exported method is ONE critical section per mutex, except the write path, whose three sections are listed; state is written outside a.lock only as the terminal value), '
+                'C20_no_reentrant_timer (observers are called with no mutex held; nothing is ever acquired under a timer mutex), C20_blocking_under_lock (exactly three operations can block with a '
+                'mutex held), and the generic C20_interleaving_refines_sequence (any interleaving of acquire / micro-operation / release of threads that touch shared state only under ONE mutex equals '
+                'the sequential run of the sections in acquisition order - which is how the operation-list theorems of the other properties apply to concurrent callers). SAMPLED: storms of concurrent '
+                'API calls on both associations (one writer per stream; deadline / reliability / threshold changes, buffered-amount queries, a low-threshold callback that re-enters the API, '
+                'OpenStream of open streams, Stream.Close from another goroutine, then Shutdown / Close / Abort from several goroutines at a random instant) with the delivery predicates on; '
+                'completion = no deadlock. Thorough tier: the storm and teardown programs natively under -race.',
+        'note': CONC_NOTE + ' The lock analysis is syntactic and intra-package: mutexes are identified by (receiver type, field), so all streams share one node; sync/atomic and unsynchronised accesses '
+                'are invisible to it. The linearisation theorem is about one mutex; WriteSCTP is three sections, and that is observable: KNOWN FINDING K20-write-close-race (Close from another '
+                'goroutine between the state test and the enqueue of a write: the write reports success and is never delivered). Also reported: the read-deadline replacement race '
+                '(corpus/C20/read_deadline_race.txt, timing dependent). Bubble storms run on one P (cooperative, reproducible); with several Ps go1.26 synctest bubbles occasionally stall.',
+        'technique': 'decide on translator-derived concurrency facts (lock-order graph, callback / entry-point / blocking sites) + a Lean refinement theorem (interleaved critical sections = sequence '
+                     'of steps) + seeded concurrent-API storms under testing/synctest + race-detector runs as supporting evidence',
     },
 })
 
